@@ -7,7 +7,7 @@ import reactivex
 from reactivex import operators as ops
 
 from vlib.core import FAIL, OK, SKIP, Check, HarnessError
-from vlib.hoc import POLICIES, TSource, all_subs, compare_union, exact_trace, inner_specs, max_overlap, outer_spec, simulate
+from vlib.hoc import POLICIES, TSource, all_subs, compare_union, exact_trace, draw_outer, inner_specs, max_overlap, simulate
 from vlib.lab import Lab
 
 PROPERTY_ID = "C11"
@@ -208,7 +208,7 @@ def _cases(draw, forms):
         c["sel"] = [draw(st.integers(0, len(inn) - 1)) for _ in range(k)]
         c["sched"] = draw(st.sampled_from(["lab", "none"]))
     else:
-        c["outer"] = draw(outer_spec(len(inn)))
+        c["outer"] = draw_outer(draw, len(inn))
         if form == "merge_mc":
             c["maxc"] = draw(st.sampled_from([1, 2, 2, 3, 1, 4]))
         if form == "flat_map_const":
